@@ -152,20 +152,20 @@ Print Assumptions reported_values_consistent.
 
 (* numba engine: norm factors and gas velocities of get_gas_vel_numba = p_N T/(T_N p) K and v * normfactor at the from end, the to end (outlet temperature) and the mean state *)
 Theorem reported_values_consistent_numba :
-  forall bp_TOUTINIT comp_from comp_mean comp_to np_from_TINIT p_abs_from p_abs_mean p_abs_to v_mps : R,
+  forall bp_TOUTINIT comp_from comp_mean comp_to p_abs_from p_abs_mean p_abs_to t_from_in v_mps : R,
   p_abs_from <> 0 -> p_abs_to <> 0 -> p_abs_mean <> 0 ->
-  gasvel_nb_normfactor_from bp_TOUTINIT comp_from comp_mean comp_to np_from_TINIT p_abs_from p_abs_mean p_abs_to v_mps
-    = doc_normfactor p_abs_from np_from_TINIT comp_from /\
-  gasvel_nb_normfactor_to bp_TOUTINIT comp_from comp_mean comp_to np_from_TINIT p_abs_from p_abs_mean p_abs_to v_mps
+  gasvel_nb_normfactor_from bp_TOUTINIT comp_from comp_mean comp_to p_abs_from p_abs_mean p_abs_to t_from_in v_mps
+    = doc_normfactor p_abs_from t_from_in comp_from /\
+  gasvel_nb_normfactor_to bp_TOUTINIT comp_from comp_mean comp_to p_abs_from p_abs_mean p_abs_to t_from_in v_mps
     = doc_normfactor p_abs_to bp_TOUTINIT comp_to /\
-  gasvel_nb_normfactor_mean bp_TOUTINIT comp_from comp_mean comp_to np_from_TINIT p_abs_from p_abs_mean p_abs_to v_mps
-    = doc_normfactor p_abs_mean ((np_from_TINIT + bp_TOUTINIT) / 2) comp_mean /\
-  gasvel_nb_v_gas_from bp_TOUTINIT comp_from comp_mean comp_to np_from_TINIT p_abs_from p_abs_mean p_abs_to v_mps
-    = v_mps * doc_normfactor p_abs_from np_from_TINIT comp_from /\
-  gasvel_nb_v_gas_to bp_TOUTINIT comp_from comp_mean comp_to np_from_TINIT p_abs_from p_abs_mean p_abs_to v_mps
+  gasvel_nb_normfactor_mean bp_TOUTINIT comp_from comp_mean comp_to p_abs_from p_abs_mean p_abs_to t_from_in v_mps
+    = doc_normfactor p_abs_mean ((t_from_in + bp_TOUTINIT) / 2) comp_mean /\
+  gasvel_nb_v_gas_from bp_TOUTINIT comp_from comp_mean comp_to p_abs_from p_abs_mean p_abs_to t_from_in v_mps
+    = v_mps * doc_normfactor p_abs_from t_from_in comp_from /\
+  gasvel_nb_v_gas_to bp_TOUTINIT comp_from comp_mean comp_to p_abs_from p_abs_mean p_abs_to t_from_in v_mps
     = v_mps * doc_normfactor p_abs_to bp_TOUTINIT comp_to /\
-  gasvel_nb_v_gas_mean bp_TOUTINIT comp_from comp_mean comp_to np_from_TINIT p_abs_from p_abs_mean p_abs_to v_mps
-    = v_mps * doc_normfactor p_abs_mean ((np_from_TINIT + bp_TOUTINIT) / 2) comp_mean.
+  gasvel_nb_v_gas_mean bp_TOUTINIT comp_from comp_mean comp_to p_abs_from p_abs_mean p_abs_to t_from_in v_mps
+    = v_mps * doc_normfactor p_abs_mean ((t_from_in + bp_TOUTINIT) / 2) comp_mean.
 Proof. exact C02.Proofs.reported_numba_lemma. Qed.
 Print Assumptions reported_values_consistent_numba.
 
